@@ -143,6 +143,17 @@ def run(ctx, idx):
 
     ctx.rule("C02.j", "NormalizeMeanToMid (and the fuzzy conversion built on it) anchors its curve on the minimum and maximum of the whole input; IgnoreZeros narrows only the means (C08.h's reading of the body, listed here because the result of the command is what C02 is about).")
     mean_to_mid_points(ctx, idx, byname_res(idx), "C02.j")
+    # ---- k: sharing is not a cycle
+    from .coverage import false_cycle_reports
+
+    ctx.rule("C02.k", "Other consumers of an intermediate result change nothing: no walk of the reference graph reports a result that is reached along two chains as a loop (a cycle test on a path collection that is never unwound rejects every diamond).")
+    fc = false_cycle_reports(idx, A)
+    con_k = "mpilot/program.py::Program.run::sharing-is-not-a-cycle"
+    if fc:
+        for f_, line_, text_ in fc[:2]:
+            ctx.violate("C02.k", con_k, K.rel(f_), line_, text_)
+    else:
+        ctx.hold("C02.k", con_k, "mpilot/program.py", A.program_run.node.lineno, "no reference walk confuses visited with on-the-current-chain", nontrivial=False)
     # ---- b, c, d
     n_exec = 0
     for key, (d, r) in sorted(R.results(idx).items()):
@@ -165,7 +176,7 @@ def run(ctx, idx):
             if kind == "dependency-store":
                 probs.append((line, "stores an attribute on a dependency: %s" % text))
         for f_ in r.findings:
-            if f_[0] == "arg-mutation":
+            if f_[0] in ("arg-mutation", "shared-table-mutation"):
                 probs.append((f_[1], f_[2]))
         for n in own_nodes(fi.node):
             if isinstance(n, (ast.Global, ast.Nonlocal)):
